@@ -44,6 +44,14 @@ def build_harness(race=False):
     gosum = os.path.join(HARNESS, 'go.sum')
     shutil.copyfile('/repo/go.sum', gosum)
     args = ['go', 'build', '-tags', 'verif']
+    alt = os.environ.get('VERIF_REPO')   # development aid only (bin/trymutant --worktree): build against a scratch copy of the repository
+    if alt:
+        os.makedirs(os.path.join(BUILD, 'alt'), exist_ok=True)
+        out = os.path.join(BUILD, 'alt', 'rverif-%d' % os.getpid() + ('-race' if race else ''))
+        mod = os.path.join(BUILD, 'alt', 'go-%d.mod' % os.getpid())
+        open(mod, 'w').write(open(os.path.join(HARNESS, 'go.mod')).read().replace('=> /repo', '=> ' + alt))
+        shutil.copyfile('/repo/go.sum', mod[:-4] + '.sum')
+        args += ['-modfile', mod]
     if race:
         args.append('-race')
     args += ['-o', out, '.']
@@ -243,3 +251,26 @@ def write_evidence(prop, tier, seed, level, coverage, wall, violations, assumpti
     ev = {'property_id': prop, 'tier': tier, 'seed': seed, 'level': level, 'coverage': coverage,
           'assumptions': assumptions, 'wall_s': round(wall, 1), 'violations': violations}
     json.dump(ev, open(os.path.join(EVIDENCE, prop + '.json'), 'w'), indent=1)
+
+
+# ------------------------------------------------------------------------------------------------
+# gate traces of the parallel pipelines (C12): TraceParAgg.tla, accepted <=> invariant NotFinished violated
+
+def validate_gate(d, tag, trace_path, cfg_text, timeout=600):
+    """Returns (accepted, highwater, stats)."""
+    cfgname = 'gate-%s.cfg' % tag
+    open(os.path.join(d, cfgname), 'w').write(cfg_text)
+    n_events = sum(1 for _ in open(trace_path))
+    rc, txt, stats = run_tlc(d, 'MCTraceParAgg.tla', cfgname,
+                             env_extra={'TRACE_FILE': trace_path, 'JAVA_TOOL_OPTIONS': '-Dtlc2.tool.queue.IStateQueue=StateDeque'},
+                             workers=1, timeout=timeout, extra_args=['-noGenerateSpecTE'], out_name='tlc-gate-%s.out' % tag)
+    stats['events'] = n_events
+    m = re.search(r'"HIGHWATER", (\d+)', txt)
+    hw = int(m.group(1)) if m else -1
+    if 'Invariant NotFinished is violated' in txt:
+        return True, n_events, stats
+    if 'Invariant SafeAlong is violated' in txt:
+        return False, hw, dict(stats, safety='SafeAlong violated')
+    if 'Model checking completed. No error has been found' in txt:
+        return False, hw, stats
+    raise Inconclusive('gate trace validation did not complete (rc=%s):\n%s' % (rc, txt[-2500:]))
